@@ -19,6 +19,7 @@ func propC16(c *Ctx) propInfo {
 	c.cursorPairing()
 	c.floor("E10.hash-capture", 6)
 	c.floor("E10.normalised-hash", 5)
+	c.bocHeaderAgreement() // SourceBoc serialises through serializeBoc
 	return propInfo{
 		explanation: "Static structural clauses of C16 (DESIGN.md §4 C16): in Message.UnmarshalTLB and Transaction.UnmarshalTLB every success exit is dominated by a store into the hash field of a value obtained from hashing the parameter cell (with or without the decoder's hasher) and the cursors are reset before the fields are decoded; Message.Hash(true) returns, for external-in messages, only the hash of a freshly built cell whose contents derive from constants, the destination and the body (never from source, import fee, init or the body's inline/ref flag) and whose layout is the canonical ext-in header; the cached hash is returned only on the non-normalising edge; Transaction.SourceBoc serialises the captured parameter cell after resetting its cursors; hashing is cursor independent. Decides these necessary conditions, not numeric equality with the source cell's hash. The variable captured by the SourceBoc closures is never reassigned.",
 	}
@@ -164,7 +165,10 @@ func (c *Ctx) normalisedHash() {
 	for _, r := range returnsOf(f) {
 		v := retVal(r, 0)
 		switch {
-		case derivesFrom(v, func(x ssa.Value) bool { cl := callOf(x); return cl != nil && callQName(&cl.Call) == bocPath+".Cell.Hash256" && cl.Call.Args[0] == ssa.Value(nc) }, false):
+		case derivesFrom(v, func(x ssa.Value) bool {
+			cl := callOf(x)
+			return cl != nil && callQName(&cl.Call) == bocPath+".Cell.Hash256" && cl.Call.Args[0] == ssa.Value(nc)
+		}, false):
 			nFresh++
 		case derivesFrom(v, func(x ssa.Value) bool { _, fn, ok := fieldOf(x); return ok && fn == "hash" }, false):
 			nCached++
